@@ -35,12 +35,15 @@ struct Shape {
     /// authentication only: PRF requested but the stored credential holds no PRF secrets
     /// (the ceremony fails after the counter was advanced)
     no_secret: bool,
+    /// registration only: UV-only PRF configuration with evaluation at creation, PRF requested,
+    /// verification not requested - the extension step fails (nothing may have been stored)
+    ext_fail: bool,
 }
 
 impl Shape {
     fn json(&self) -> Value {
         json!({"op": if self.reg {"registration"} else {"authentication"}, "level": if self.client {"client"} else {"ctap"},
-            "list": self.list, "prf_extension": self.prf, "counters": self.counters, "rk": self.rk, "credential_without_prf_secret": self.no_secret})
+            "list": self.list, "prf_extension": self.prf, "counters": self.counters, "rk": self.rk, "credential_without_prf_secret": self.no_secret, "extension_step_fails": self.ext_fail})
     }
     fn all() -> Vec<Shape> {
         let mut v = Vec::new();
@@ -53,9 +56,12 @@ impl Shape {
                                 if !reg && rk {
                                     continue;
                                 }
-                                v.push(Shape { reg, client, list, prf, counters, rk, no_secret: false });
+                                v.push(Shape { reg, client, list, prf, counters, rk, no_secret: false, ext_fail: false });
                                 if !reg && prf {
-                                    v.push(Shape { reg, client, list, prf, counters, rk, no_secret: true });
+                                    v.push(Shape { reg, client, list, prf, counters, rk, no_secret: true, ext_fail: false });
+                                }
+                                if reg && prf {
+                                    v.push(Shape { reg, client, list, prf, counters, rk, no_secret: false, ext_fail: true });
                                 }
                             }
                         }
@@ -66,7 +72,7 @@ impl Shape {
         v
     }
     fn cfg(&self) -> AuthCfg {
-        AuthCfg { counters: self.counters, id_len: Some(24), hmac: if self.prf { HmacCfg::WithoutUv } else { HmacCfg::None }, hmac_mc: self.prf }
+        AuthCfg { counters: self.counters, id_len: Some(24), hmac: if self.ext_fail { HmacCfg::UvOnly } else if self.prf { HmacCfg::WithoutUv } else { HmacCfg::None }, hmac_mc: self.prf }
     }
 }
 
@@ -163,6 +169,7 @@ fn run_one(sh: &Shape, plan: &PlanSpec) -> Obs {
             let mut opts = creation_options(Some(RP), b"new-user", "n", &[3u8; 16], vec![pk_param(coset::iana::Algorithm::ES256)]);
             opts.public_key.authenticator_selection = Some(passkey_types::webauthn::AuthenticatorSelectionCriteria {
                 resident_key: Some(if sh.rk { passkey_types::webauthn::ResidentKeyRequirement::Required } else { passkey_types::webauthn::ResidentKeyRequirement::Discouraged }),
+                user_verification: if sh.ext_fail { UserVerificationRequirement::Discouraged } else { UserVerificationRequirement::Preferred },
                 ..Default::default()
             });
             if sh.list {
@@ -208,7 +215,7 @@ fn run_one(sh: &Shape, plan: &PlanSpec) -> Obs {
         let guard = shared.clone().try_lock_owned().expect("fresh lock");
         let mut auth: Authenticator<Arc<tokio::sync::Mutex<RecStore>>, RecUv> = mk_auth(shared.clone(), rig.uv.clone(), sh.cfg());
         let r = if sh.reg {
-            let req = mc_request(RP, b"new-user", &[1u8; 32], vec![pk_param(coset::iana::Algorithm::ES256)], sh.list.then(|| vec![descriptor(&[0xEE; 24])]), ext_make, sh.rk, true, true);
+            let req = mc_request(RP, b"new-user", &[1u8; 32], vec![pk_param(coset::iana::Algorithm::ES256)], sh.list.then(|| vec![descriptor(&[0xEE; 24])]), ext_make, sh.rk, true, !sh.ext_fail);
             poll_n_then_drop(auth.make_credential(req), plan.cancel_after.unwrap_or(3)).map(|r| r.map(|x| x.auth_data.to_vec()).map_err(|e| status_byte_ref(&e)))
         } else {
             let req = ga_request(RP, &[2u8; 32], sh.list.then(|| vec![descriptor(&seeded_id)]), ext_get, true, true);
@@ -224,7 +231,7 @@ fn run_one(sh: &Shape, plan: &PlanSpec) -> Obs {
     } else {
         let mut auth = rig.auth(sh.cfg());
         if sh.reg {
-            let req = mc_request(RP, b"new-user", &[1u8; 32], vec![pk_param(coset::iana::Algorithm::ES256)], sh.list.then(|| vec![descriptor(&[0xEE; 24])]), ext_make, sh.rk, true, true);
+            let req = mc_request(RP, b"new-user", &[1u8; 32], vec![pk_param(coset::iana::Algorithm::ES256)], sh.list.then(|| vec![descriptor(&[0xEE; 24])]), ext_make, sh.rk, true, !sh.ext_fail);
             drive!(auth.make_credential(req)).map(|r| r.map(|x| x.auth_data.to_vec()).map_err(|e| status_byte_ref(&e)))
         } else {
             let req = ga_request(RP, &[2u8; 32], sh.list.then(|| vec![descriptor(&seeded_id)]), ext_get, true, true);
@@ -384,6 +391,63 @@ fn judge(rep: &mut Report, sh: &Shape, plan: &PlanSpec, o: &Obs, index: u64) {
     }
 }
 
+/// Failures that are not store faults (denied consent, unsupported options, extension errors,
+/// excluded credentials, unknown credentials ...) over the shared ceremony workload.
+fn history_sweep(rep: &mut Report, args: &Args, only: Option<u64>) {
+    use crate::props::cer::{self, Op, Outcome, World};
+    let n = args.size(300, 8000) as u64;
+    for h in 0..n {
+        let idx = 50_000_000 + h;
+        if only.map_or(false, |o| o != idx) {
+            continue;
+        }
+        let mut rng = Rng::derive(args.seed, "c07h", h);
+        let (cfg, disc, ve) = cer::gen_cfg(&mut rng);
+        let hl = rng.range(2, 14);
+        let ops = cer::gen_history(&mut rng, hl, 50);
+        let r = catch(|| {
+            let mut w = World::new(cfg, disc, ve);
+            for (i, op) in ops.iter().enumerate() {
+                w.step(i, op, &mut |st| {
+                    if st.outcome.is_ok() {
+                        return;
+                    }
+                    rep.eval();
+                    let case = json!({"index": idx, "step": st.index, "op": st.op.json(), "config": st.cfg.json(), "error": st.outcome.err_text()});
+                    match (st.op, st.outcome) {
+                        (Op::Register(_), Outcome::Reg(Err(_))) | (Op::Make(_), Outcome::Make(Err(_))) => {
+                            rep.count("history_failed_registrations");
+                            rep.nontrivial(fnv_str(&format!("hist-reg|{:?}|{:?}", st.outcome.err_text(), st.cfg.hmac)));
+                            if st.after != st.before {
+                                rep.violate("history: failed registration changed the store", st.outcome.err_text().unwrap_or_default(), case);
+                            }
+                        }
+                        (Op::Authenticate(_), Outcome::Auth(Err(_))) | (Op::Get(_), Outcome::Get(Err(_))) => {
+                            rep.count("history_failed_authentications");
+                            rep.nontrivial(fnv_str(&format!("hist-auth|{:?}|{:?}", st.outcome.err_text(), st.cfg.hmac)));
+                            let new: Vec<&CredSnap> = st.after.iter().filter(|a| !st.before.contains(a)).collect();
+                            let gone: Vec<&CredSnap> = st.before.iter().filter(|b| !st.after.contains(b)).collect();
+                            let ok = (new.is_empty() && gone.is_empty())
+                                || (new.len() == 1 && gone.len() == 1 && new[0].id == gone[0].id && {
+                                    let mut a = new[0].clone();
+                                    a.counter = gone[0].counter;
+                                    a == *gone[0] && matches!((gone[0].counter, new[0].counter), (Some(x), Some(y)) if y == x.saturating_add(1))
+                                });
+                            if !ok {
+                                rep.violate("history: failed authentication changed the store beyond one credential's counter", st.outcome.err_text().unwrap_or_default(), case);
+                            }
+                        }
+                        _ => {}
+                    }
+                });
+            }
+        });
+        if let Err((sig, d)) = r {
+            rep.violate(&format!("history {sig}"), d, json!({"index": idx}));
+        }
+    }
+}
+
 fn codes(thorough: bool) -> Vec<u8> {
     if thorough {
         (0..=255u8).collect()
@@ -466,7 +530,10 @@ pub fn run(args: &Args) -> Report {
         if only.is_none() {
             rep.eval();
             judge(&mut rep, &sh, &PlanSpec::default(), &clean, index);
-            if !matches!(clean.result, Some(Ok(_))) && !sh.no_secret {
+            if sh.ext_fail && matches!(clean.result, Some(Err(_))) {
+                rep.count("registrations_failing_in_the_extension_step");
+            }
+            if !matches!(clean.result, Some(Ok(_))) && !sh.no_secret && !sh.ext_fail {
                 rep.inconclusive(format!("clean run of shape {:?} did not succeed: {:?} {:?}", sh, clean.result.as_ref().map(|r| r.as_ref().map(|_| ()).map_err(|e| *e)), clean.client_err));
             }
         }
@@ -548,6 +615,10 @@ pub fn run(args: &Args) -> Report {
                 index += 1;
             }
         }
+    }
+    // ---- seeded ceremony histories: every failed registration / authentication, whatever the reason
+    if only.is_none() || only.map_or(false, |o| o >= 50_000_000) {
+        history_sweep(&mut rep, args, only);
     }
     rep.obs("shapes", json!(Shape::all().len()));
     rep.obs("status_bytes_per_call", json!(codes(args.thorough()).len()));
